@@ -598,6 +598,50 @@ func c19Generate(r *Rand, mode string, nowYear int) *c19Doc {
 	return &c19Doc{Text: sb.String(), Mode: mode}
 }
 
+// c19GenerateTies builds a document with many rows that tie on one place page: 4-8 namesakes born
+// (and some died) at the same place, undated or in the same year, plus a second group at another
+// place.  The tied rows differ only in the page they link to, so their order shows every
+// dependence on map iteration order when two publishes are compared byte for byte.
+func c19GenerateTies(r *Rand) *c19Doc {
+	var sb strings.Builder
+	line := func(level int, rest string) { fmt.Fprintf(&sb, "%d %s\n", level, rest) }
+	line(0, "HEAD")
+	n := 0
+	group := func(name, place string, k int) {
+		date := ""
+		switch r.Intn(3) {
+		case 0:
+			date = strconv.Itoa(1700 + r.Intn(150))
+		case 1:
+			date = fmt.Sprintf("%d Mar %d", 1+r.Intn(28), 1700+r.Intn(150))
+		}
+		died := r.Bool()
+		for i := 0; i < k; i++ {
+			n++
+			line(0, fmt.Sprintf("@I%d@ INDI", n))
+			line(1, "NAME "+name)
+			line(1, "BIRT")
+			if date != "" {
+				line(2, "DATE "+date)
+			}
+			line(2, "PLAC "+place)
+			line(1, "DEAT")
+			if died {
+				line(2, "PLAC "+place)
+			} else {
+				line(2, "DATE 1900")
+			}
+		}
+	}
+	group(r.Pick([]string{"John /Smith/", "Ann /Town/", "Old /Town/"}), r.Pick([]string{"London, England", "Old Town", "Sydney"}), 4+r.Intn(5))
+	if r.Bool() {
+		group(r.Pick([]string{"Bob /Jones/", "John /Smith/"}), r.Pick([]string{"Leeds", "London, England", "old-town"}), 2+r.Intn(4))
+	}
+	line(0, "@S1@ SOUR")
+	line(0, "TRLR")
+	return &c19Doc{Text: sb.String(), Mode: "ties"}
+}
+
 func c19RandOpts(r *Rand) c19Opts {
 	o := c19Opts{true, true, true, true, true, true, "show"}
 	if r.Chance(1, 3) { // a random subset of page groups
@@ -1239,6 +1283,9 @@ func init() {
 					o = c19Opts{true, true, true, true, true, true, "show"}
 				case i%5 == 4:
 					d = c19Generate(c.R, "plain", year)
+				case i%10 == 8:
+					d = c19GenerateTies(c.R)
+					o = c19Opts{true, true, true, true, true, true, o.Living}
 				case i%10 == 6:
 					d = c19Generate(c.R, "numbered", year)
 				case i%5 == 3:
@@ -1294,6 +1341,14 @@ func init() {
 					variants = append(variants, &variant{site: s, what: fmt.Sprintf("rerun jobs=%d", jobs),
 						job: &c19Job{Gedcom: g, Opts: s.opts, Jobs: jobs, Repeat: 2, Expect: expect},
 						env: []string{"GOMAXPROCS=" + strconv.Itoa([]int{1, 2, 4, 8}[(i+ji)%4])}})
+				}
+				if s.doc.Mode == "ties" {
+					// order inside a page that depends on map iteration shows only when runs are compared:
+					// five more processes, five publishes of the freshly decoded document in each
+					for k := 0; k < 5; k++ {
+						variants = append(variants, &variant{site: s, what: fmt.Sprintf("rerun jobs=%d (x5 in one process, process %d)", allJobs[k%4], k+1),
+							job: &c19Job{Gedcom: g, Opts: s.opts, Jobs: allJobs[k%4], Repeat: 5, Expect: expect}})
+					}
 				}
 				variants = append(variants, &variant{site: s, what: "after-other-document",
 					job: &c19Job{Gedcom: g, Gedcom2: []byte(otherDoc.Text), Opts: s.opts, Jobs: 1 + i%3, Expect: expect}})
@@ -1407,7 +1462,7 @@ func init() {
 					c.Nontrivial(fmt.Sprintf("fault/jobs=%d/all=%v/err=%v/pos=%d", v.job.Jobs, v.job.FailAll, r.Err != "", 3*v.job.FailAt/(len(base.Files)+1)))
 				default:
 					kind := strings.Fields(v.what)[0]
-					c.Count("determinism:" + v.what)
+					c.Count("determinism:" + strings.Join(strings.Fields(v.what)[:min(2, len(strings.Fields(v.what)))], " "))
 					if v.res.TimedOut || v.res.Crashed || v.res.Panic != "" || len(v.res.Runs) == 0 {
 						c.Oracle("", "publishing the same document again ("+v.what+") crashes or hangs", in,
 							fmt.Sprintf("timeout=%v %s%s", v.res.TimedOut, v.res.Panic, c19FirstLine(v.res.Stderr)), "the same files")
